@@ -139,11 +139,13 @@ def _first_error(text):
 
 BUCKETS = [
     (r"no method named `wit_map_len`", "WitMap-trait-not-in-scope"),
+    (r"no method named `into_bytes` found for struct `Vec<u8>`", "raw-strings-into-bytes-on-vec"),
+    (r"conflicting implementations of trait `(Future|Stream)Payload`", "duplicate-payload-impl"),
+    (r"the name `Guest\w*` is defined multiple times", "type-named-guest-collides-with-trait"),
 ]
 DIRECTED = [
     ("world-level-map-import", "w", "package a:b;\nworld w { import f: func(m: map<u32, string>) -> u32; }\n", ["default"]),
     ("raw-strings-two-byte-futures", "w", "package a:b;\ninterface i { f: func(a: future<string>, b: future<list<u8>>); }\nworld w { import i; }\n", ["raw-strings"]),
-    ("cleanup-list-param", "w", "package a:b;\nworld w { import f: func(cleanup-list: option<string>, x: list<string>) -> string; export g: func(cleanup-list: list<string>, y: string) -> string; }\n", ["default"]),
     ("type-named-guest", "w", "package a:b;\ninterface i { flags guest { a, b } f: func(x: guest) -> guest; }\nworld w { export i; }\n", ["default"]),
 ]
 
